@@ -109,4 +109,33 @@ def start (c : Cache) (now : Ms) (types : List String) : Browser × List Callbac
 end
 end Browser
 
+/-! ### a browser registered with the record manager -/
+
+/-- what one event does to the cache and to one browser, and the callbacks the browser fires -/
+structure BrowserOut where
+  cache : Cache
+  browser : Browser
+  /-- fired from `async_update_records_complete`, i.e. when the cache is `cache` -/
+  callbacks : List Callback
+
+section
+variable (lower : String → String) (possible : String → List String)
+
+/-- a response datagram: `async_updates_from_response` with the browser among the listeners -/
+def Browser.onDatagram (c : Cache) (b : Browser) (now : Ms) (recs : List Rec) : Except PyExc BrowserOut := do
+  let out ← ingest lower (Cache.ops lower) c now recs
+  match out.call1 with
+  | none => pure { cache := out.cache, browser := b, callbacks := [] }
+  | some call =>
+    let b1 := Browser.updateRecords lower possible call.2 now b call.1
+    pure { cache := out.cache, browser := (Browser.complete b1).1, callbacks := (Browser.complete b1).2 }
+
+/-- the periodic purge: `_async_cache_cleanup` reports every purged record as `(record, record)` -/
+def Browser.onPurge (c : Cache) (b : Browser) (now : Ms) : Except PyExc BrowserOut := do
+  let out ← expire (Cache.ops lower) c now
+  let b1 := Browser.updateRecords lower possible out.1 now b (out.2.map (fun r => (r, some r)))
+  pure { cache := out.1, browser := (Browser.complete b1).1, callbacks := (Browser.complete b1).2 }
+
+end
+
 end Zc
